@@ -286,7 +286,13 @@ def _process_properties(  # noqa: PLR0912, PLR0911
     unprocessed_props: list[tuple[str, oai.Reference | oai.Schema]] = (
         list(data.properties.items()) if data.properties else []
     )
-    for sub_prop in data.allOf:
+    for member in data.allOf:
+        sub_prop = member
+        if isinstance(member, oai.Schema) and not member.properties:
+            # A wrapper around a single reference is that reference (same rule as in property_from_data)
+            wrapped = member.allOf + member.anyOf + member.oneOf
+            if len(wrapped) == 1 and isinstance(wrapped[0], oai.Reference):
+                sub_prop = wrapped[0]
         if isinstance(sub_prop, oai.Reference):
             ref_path = parse_reference_path(sub_prop.ref)
             if isinstance(ref_path, ParseError):
